@@ -340,7 +340,7 @@ impl<T: ClusterKey> TopologyManager<T> {
         }
 
         // If the node wasn't active before, mark it active now
-        if let Some((_existing_alive_since, existing_index)) = self.active_nodes.get(&peer_id) {
+        if let Some((existing_alive_since, existing_index)) = self.active_nodes.get(&peer_id) {
             if *existing_index != node_index {
                 warn!(
                     "node {peer_id} changed index from {} to {}",
@@ -348,6 +348,11 @@ impl<T: ClusterKey> TopologyManager<T> {
                 );
                 self.active_nodes.insert(peer_id, (alive_since, node_index));
                 self.recalculate_partition_assignments();
+                status_changed = true;
+            } else if alive_since > *existing_alive_since {
+                // The node restarted, coordinators are ordered by alive_since
+                info!("node {peer_id} restarted (index: {node_index})");
+                self.active_nodes.insert(peer_id, (alive_since, node_index));
                 status_changed = true;
             }
         } else {
